@@ -120,3 +120,9 @@ Print Assumptions C16_no_mutation.
 Theorem C16_no_shared_mutable_state : gen_no_shared_mutable_state = true.
 Proof. reflexivity. Qed.
 Print Assumptions C16_no_shared_mutable_state.
+
+(* no function of helpers.py edits an argument in place - directly, through a local alias, through np.asarray / reshape / ravel (which may return the SAME array)
+   or through another helper (regenerated scan with transitive parameter-mutation summaries): `none of them mutates or reorders the caller's list` - for every helper, not only the selection ones *)
+Theorem C16_helpers_do_not_mutate_arguments : gen_helpers_do_not_mutate_arguments = true.
+Proof. reflexivity. Qed.
+Print Assumptions C16_helpers_do_not_mutate_arguments.
